@@ -32,9 +32,15 @@ from .http_client import (
     try_http_with_sse_fallback,
 )
 
+# Names under which chuk_mcp.transports imports this transport
+HTTPTransport = StreamableHTTPTransport
+HTTPParameters = StreamableHTTPParameters
+
 __all__ = [
     "StreamableHTTPTransport",
     "StreamableHTTPParameters",
+    "HTTPTransport",
+    "HTTPParameters",
     "http_client",
     "streamable_http_client",
     "create_http_parameters_from_url",
